@@ -160,8 +160,10 @@ func (g *Gen) keys(max int) []string {
 func (g *Gen) future() int64 { return g.Base + hour*int64(1+g.pick(3)) }
 func (g *Gen) past() int64   { return g.Base - hour*int64(1+g.pick(3)) }
 func (g *Gen) at() int64 {
-	if g.chance(0.06) {
-		return []int64{0, -100, 1, -3600000}[g.pick(4)] // at or before the epoch
+	if g.chance(0.12) {
+		// at or before the epoch; instants whose decimal text has fewer or more digits than the
+		// present one and sorts the other way as text (1970 + a day, the year 2300, the year 5138)
+		return []int64{0, -100, 1, -3600000, 86400000, 999, 10413792000000, 99999999999999}[g.pick(8)]
 	}
 	if g.chance(0.7) {
 		return g.future()
@@ -792,9 +794,59 @@ func (g *Gen) keyScanBurst() []*Step {
 	return st
 }
 
+// midIterationBurst: an iteration page by page during which an element that has already been
+// returned (or one still to come) is UPDATED in place - a new score, a new field value, a member
+// added again.  The element is present throughout, under the same row: it is returned exactly once.
+func (g *Gen) midIterationBurst() []*Step {
+	key := g.key()
+	fam := []byte{'E', 'H', 'Z'}[g.pick(3)]
+	n := 3 + g.pick(4)
+	target := fmt.Sprintf("m%d", g.pick(n)) // first, middle or last in row order
+	st := []*Step{{Ops: []*Op{KDelete(key)}}}
+	for i := 0; i < n; i++ {
+		name := fmt.Sprintf("m%d", i)
+		switch fam {
+		case 'E':
+			st = append(st, &Step{Ops: []*Op{EAdd(key, VStr(name))}})
+		case 'H':
+			st = append(st, &Step{Ops: []*Op{HSet(key, name, VStr("v"))}})
+		default:
+			st = append(st, &Step{Ops: []*Op{ZAdd(key, VStr(name), float64(i))}})
+		}
+	}
+	other := "m0" // a second element for the multi-element forms (a Go map: distinct names)
+	if target == other {
+		other = "m1"
+	}
+	var mid func() *Op
+	switch fam {
+	case 'E':
+		mid = func() *Op { return EAdd(key, VStr(target), VStr(other)) }
+	case 'H':
+		if g.chance(0.5) {
+			mid = func() *Op { return HSet(key, target, VStr("changed")) }
+		} else {
+			mid = func() *Op { return HSetMany(key, KV{K: target, V: VStr("1")}, KV{K: other, V: VStr("2")}) }
+		}
+	default:
+		switch g.pick(3) {
+		case 0:
+			mid = func() *Op { return ZAdd(key, VStr(target), 100) }
+		case 1:
+			mid = func() *Op { return ZIncr(key, VStr(target), 50) }
+		default:
+			mid = func() *Op { return ZAddMany(key, ZV{V: VStr(target), Score: -1}, ZV{V: VStr(other), Score: 77}) }
+		}
+	}
+	return append(st, IterationAcross(fam, key, mid, "iteration"))
+}
+
 func (g *Gen) burst() []*Step {
 	if g.Prof.Scan && !g.Prof.Glob && !g.Prof.Binary && g.chance(0.3) {
 		return g.keyScanBurst()
+	}
+	if g.Prof.Scan && g.chance(0.2) {
+		return g.midIterationBurst()
 	}
 	if g.Prof.Scan && g.chance(0.6) {
 		return g.scanBurst()
